@@ -332,6 +332,8 @@ def _short_test(e, v, size):
     """which out-edge ('true'/'false') of test `e` is taken on a short read into v; None if e is not such a test"""
     if isinstance(e, ast.UnaryOp) and isinstance(e.op, ast.Not) and isinstance(e.operand, ast.Name) and e.operand.id == v:
         return "true"
+    if isinstance(e, ast.Name) and e.id == v:
+        return "false"
     if isinstance(e, ast.Compare) and len(e.ops) == 1:
         l, r = e.left, e.comparators[0]
         if isinstance(l, ast.Call) and isinstance(l.func, ast.Name) and l.func.id == "len" and len(l.args) == 1 and isinstance(l.args[0], ast.Name) and l.args[0].id == v:
